@@ -369,7 +369,9 @@ let cmd_spec (a : sx list) : string =
                 ^ b (AvroValue.conforms fs root v) ^ " " ^ b (layout_ok e) ^ " "
                 ^ show_dval (Denote.dval_any fs root v) ^ " " ^ show_sval (Denote.present fs root v) ^ " "
                 ^ show_target (Denote.typed_target fs (Datatypes.S (Datatypes.S (Wf.depth_cost e))) root) ^ " "
-                ^ show_dval (Denote.dval_typed fs root v) ^ ")")
+                ^ show_dval (Denote.dval_typed fs root v) ^ " "
+                ^ show_target (DenoteOpt.typed_target_opt fs (Datatypes.S (Datatypes.S (Wf.depth_cost e))) root) ^ " "
+                ^ show_dval (DenoteOpt.dval_typed_opt fs root v) ^ ")")
        | _ -> "(bad-schema)")
   | _ -> failwith "spec: arguments"
 
@@ -474,11 +476,15 @@ let show_item = function
    prints the metadata entries as found and the items *)
 let cmd_cr (a : sx list) : string =
   match a with
-  | file :: mode :: tgt :: maxc :: sch :: _ ->
+  | file :: mode :: tgt :: maxc :: sch :: rest ->
       let bytes = sx_bytes file in
+      (* optional (alloc N): ReaderRead::max_alloc_size of the reader handed to the container reader *)
+      let max_alloc = (match rest with
+                       | o :: _ -> (match head o with ("alloc", [n]) -> sx_n n | _ -> failwith "cr: expected (alloc N)")
+                       | [] -> n_of_z (Z.of_int (512 * 1024 * 1024))) in
       let rs = (match head mode with
                 | ("slice", _) -> Reader.slice_reader bytes
-                | ("chunks", plan) -> Reader.chunked_reader bytes (L.map sx_n plan) (n_of_z (Z.of_int (512 * 1024 * 1024)))
+                | ("chunks", plan) -> Reader.chunked_reader bytes (L.map sx_n plan) max_alloc
                 | _ -> failwith "bad mode") in
       (match cr_open rs with
        | Ok ((entries, sy), r1) ->
